@@ -52,6 +52,13 @@ pub fn dispatch(op: &str, a: &[Val]) -> Option<Val> {
         })(),
         "z.nutc" => (|| Some(enc_ndt(dec_dt(a.get(0)?)?.naive_utc())))(),
         "z.nlocal" => (|| Some(enc_ndt(dec_dt(a.get(0)?)?.naive_local())))(),
+        "z.show" => (|| {
+            use std::fmt::Write;
+            let z = dec_dt(a.get(0)?)?; let form = a.get(1)?.int()?;
+            let mut t = String::new();
+            let r = match form { 0 => write!(&mut t, "{}", z), 1 => write!(&mut t, "{:?}", z), _ => return None };
+            Some(if r.is_ok() { vstr(&t) } else { verr("fmt") })
+        })(),
         "z.acc" => (|| Some(acc(dec_dt(a.get(0)?)?)))(),
         "z.time" => (|| Some(enc_time(dec_dt(a.get(0)?)?.time())))(),
         "z.datenaive" => (|| Some(enc_date(dec_dt(a.get(0)?)?.date_naive())))(),
